@@ -10,7 +10,8 @@ From UV.Base Require Import Order Cop Res.
 From UV.Gen Require Import Tables.
 From UV.Vers Require Import Model Spec.
 From UV.Schemes Require Import Common Semver SemverProofs.
-From UV.Native Require Import Intervals Shorthand.
+From UV.Vers Require Import ContainsProofs.
+From UV.Native Require Import Intervals IntervalsWf Shorthand.
 Import ListNotations.
 
 Theorem C06_one_alternative :
@@ -22,6 +23,24 @@ Theorem C06_flat_expression :
   forall (V : Type) (cmp : V -> V -> comparison), TPO cmp ->
   forall (e : list (alt V)) (p : V), separated V cmp e -> den V cmp (to_constraints V e) p = nmatch V cmp e p.
 Proof. exact native_conversion_exact. Qed.
+
+(* the converted range is well-formed (C07's sentence for a list read in version order) *)
+Theorem C06_result_well_formed :
+  forall (V : Type) (cmp : V -> V -> comparison) (e : list (alt V)),
+    separated V cmp e -> Forall (fun a => alt_inc V cmp a = true) e -> e <> [] ->
+    wf_sorted V cmp (to_constraints V e) = true.
+Proof. exact native_conversion_wf. Qed.
+
+(* hence the containment code itself, on the converted range, answers the native rule and never raises *)
+Theorem C06_containment_of_converted_range :
+  forall (V : Type) (cmp : V -> V -> comparison), TPO cmp ->
+  forall (e : list (alt V)) (p : V),
+    separated V cmp e -> Forall (fun a => alt_inc V cmp a = true) e -> e <> [] ->
+    contains V cmp (to_constraints V e) p = Ok (nmatch V cmp e p).
+Proof.
+  intros V cmp T e p S I N. rewrite (contains_sound V cmp T _ p (native_conversion_wf V cmp e S I N)).
+  rewrite (native_conversion_exact V cmp T e p S). reflexivity.
+Qed.
 
 Theorem C06_npm_caret : forall a b c x y z,
   den semver semver_cmp [C GE (mk a b c); C LT (caret_upper (mk a b c))] (mk x y z) = native_caret a b c x y z.
@@ -61,8 +80,16 @@ Proof.
          end.
 Qed.
 
+Example C06_ascending_inhabited :
+  Forall (fun a => alt_inc Z Z.compare a = true)
+    [AIval Z {| lo := None; hi := Some (2, false)%Z; excl := [] |}; AExact Z 4%Z;
+     AIval Z {| lo := Some (6, true)%Z; hi := Some (12, true)%Z; excl := [8; 10]%Z |}].
+Proof. repeat constructor. Qed.
+
 Print Assumptions C06_one_alternative.
 Print Assumptions C06_flat_expression.
+Print Assumptions C06_result_well_formed.
+Print Assumptions C06_containment_of_converted_range.
 Print Assumptions C06_npm_caret.
 Print Assumptions C06_tilde_and_minor_x.
 Print Assumptions C06_major_x.
